@@ -215,6 +215,23 @@ class Sym:
         f = self.expr_fn(text, [], variables)
         self.ctx.assume(self.I.pure(f))
 
+    # helpers that exist in the same form on the native Sym used by replay ----------------------------
+    def attr(self, obj, name):
+        return obj.attrs[name]
+
+    def mark_distinct(self, lst):
+        """`requires`: the entries of this list are pairwise distinguishable under their == (see R-ERASE)"""
+        lst.term.requires_distinct = True
+
+    def nt(self, clsqual, values):
+        return self.I.make_nt(self.I.get_function(clsqual), list(values), {})
+
+    def odict(self, pairs):
+        from .builtins_model import SDict
+        d = SDict(pairs)
+        d.owner = "input"
+        return d
+
 
 # ----------------------------------------------------------------------------- outcomes
 
